@@ -135,12 +135,17 @@ enum State {
 
 pub(crate) struct AmbiguityGuard {
     state: State,
+    /// Number of HTML `<template>` elements that are open outside of `<select>`. A `<select>`
+    /// seen while this is non-zero is inside a template, and that template's end tag closes
+    /// the `<select>` along with it.
+    open_templates: u64,
 }
 
 impl Default for AmbiguityGuard {
     fn default() -> Self {
         Self {
             state: State::Default,
+            open_templates: 0,
         }
     }
 }
@@ -149,6 +154,7 @@ impl AmbiguityGuard {
     pub fn track_start_tag(
         &mut self,
         tag_name: LocalNameHash,
+        in_html_ns: bool,
     ) -> Result<(), ParsingAmbiguityError> {
         match self.state {
             State::Default => {
@@ -156,6 +162,8 @@ impl AmbiguityGuard {
                     self.state = State::InSelect;
                 } else if tag_name == Tag::Frameset {
                     self.state = State::InOrAfterFrameset;
+                } else if tag_name == Tag::Template && in_html_ns {
+                    self.open_templates += 1;
                 }
             }
             State::InSelect => {
@@ -191,7 +199,16 @@ impl AmbiguityGuard {
 
     pub fn track_end_tag(&mut self, tag_name: LocalNameHash) {
         match self.state {
+            State::Default if tag_name == Tag::Template => {
+                self.open_templates = self.open_templates.saturating_sub(1);
+            }
             State::InSelect if tag_name == Tag::Select => {
+                self.state = State::Default;
+            }
+            // NOTE: the end tag of a template that contains the <select> closes
+            // the <select> as well.
+            State::InSelect if tag_name == Tag::Template && self.open_templates > 0 => {
+                self.open_templates -= 1;
                 self.state = State::Default;
             }
             State::InTemplateInSelect(depth) if tag_name == Tag::Template => {
